@@ -487,6 +487,57 @@ Section SeqProofs.
         * destruct (Nat.ltb_spec (n + 1) pos); [|lia]. rewrite A. reflexivity.
   Qed.
 
+  (* ---------------- __convert / destroy / unpack *)
+  Lemma seq_empty_wf' : seq_wf (seq_empty T) /\ seq_abs (seq_empty T) = (dflt, []).
+  Proof. split; [split; cbn; auto|reflexivity]. Qed.
+
+  Lemma seq_convert_ok : forall xs,
+    exists s', seq_convert T dflt xs = Ok s' /\ seq_wf s' /\ seq_abs s' = (dflt, xs).
+  Proof.
+    intros xs. unfold seq_convert.
+    destruct (seq_reserve_ok (length xs) (seq_empty T) (proj1 seq_empty_wf')) as (k & -> & Hk). cbn [rbind sdata ssize seq_empty app] in *.
+    cbn [length] in Hk. rewrite fill_from_ok by (rewrite repeat_length; lia). cbn [rbind].
+    eexists; split; [reflexivity|]. split.
+    - split; cbn [sinit sdata ssize]; [discriminate|]. right. rewrite length_overwrite; rewrite repeat_length; lia.
+    - unfold seq_abs, slot0; cbn [sdata ssize]. f_equal.
+      + rewrite nthe_overwrite_in by (rewrite repeat_length; lia). rewrite nthe_repeat.
+        destruct (Nat.ltb_spec 0 1); [|lia]. destruct (Nat.ltb_spec 0 k); [reflexivity|lia].
+      + apply nth_error_ext; intro j. rewrite nthe_firstn, nthe_skipn.
+        rewrite nthe_overwrite_in by (rewrite repeat_length; lia).
+        ltb_cases; nth_close; try (symmetry; apply nthe_beyond; lia).
+  Qed.
+
+  Lemma seq_unpack_loop_ok : forall n k s, seq_wf s -> 1 <= k -> k + n <= length (snd (seq_abs s)) + 1 ->
+    exists s', seq_unpack_loop T dflt n k s = Ok (s', firstn n (skipn (k - 1) (snd (seq_abs s)))) /\
+               seq_wf s' /\ seq_abs s' = seq_abs s.
+  Proof.
+    induction n; intros k s W Hk Hn; cbn [seq_unpack_loop firstn].
+    - eauto.
+    - pose proof (seq_get_ok k s W) as G. destruct (seq_abs s) as [z l] eqn:EA. cbn [snd] in *. cbn [sq_step] in G.
+      destruct (Nat.eqb_spec k 0); [lia|]. destruct (Nat.eqb_spec k (length l + 1)); [lia|].
+      destruct (nth_error l (k - 1)) as [x|] eqn:Ex; [|apply nth_error_None in Ex; lia].
+      destruct G as (s1 & -> & _ & W1 & A1). cbn [rbind fst snd].
+      destruct (IHn (S k) s1 W1 ltac:(lia) ltac:(rewrite A1; cbn [snd]; lia)) as (s2 & -> & W2 & A2).
+      cbn [rbind fst snd]. rewrite A1 in *. cbn [snd] in *. exists s2. split; [|split; [assumption|congruence]].
+      f_equal. f_equal.
+      assert (skipn (k - 1) l = x :: skipn (S k - 1) l) as ->.
+      { apply nth_error_ext; intro j. rewrite nthe_cons, !nthe_skipn.
+        destruct (Nat.eqb_spec j 0); [subst; rewrite Nat.add_0_r; assumption|f_equal; lia]. }
+      reflexivity.
+  Qed.
+
+  Lemma seq_unpack_ok : forall i j s, seq_wf s ->
+    if (1 <=? i) && (j <=? length (snd (seq_abs s))) && (i <=? j)
+    then exists s', seq_unpack T dflt i j s = Ok (s', firstn (j - i + 1) (skipn (i - 1) (snd (seq_abs s)))) /\
+                    seq_wf s' /\ seq_abs s' = seq_abs s
+    else seq_unpack T dflt i j s = Trap TrapUnpack.
+  Proof.
+    intros i j s W. unfold seq_unpack. rewrite (seq_len_eq s W).
+    destruct ((1 <=? i) && (j <=? length (snd (seq_abs s))) && (i <=? j)) eqn:G; [|reflexivity].
+    apply andb_true_iff in G. destruct G as [G G3]. apply andb_true_iff in G. destruct G as [G1 G2].
+    apply Nat.leb_le in G1, G2, G3. apply seq_unpack_loop_ok; [assumption|lia|lia].
+  Qed.
+
   (* ---------------- one step, and whole histories *)
   Definition seq_refines (o : cop T) (s : seq T) : Prop :=
     match sq_step T dflt teqb o (seq_abs s) with
@@ -531,6 +582,12 @@ Section SeqProofs.
     - pose proof (seq_set_ok pos x s W) as P. cbn [seq_step].
       destruct (sq_step T dflt teqb (OAssign T pos x) (seq_abs s)) as [[st' r]|t].
       + destruct P as (s' & -> & -> & W' & C). cbn [rbind]. eauto.
+      + rewrite P. reflexivity.
+    - destruct (seq_abs s); cbn [sq_step seq_step]. exists (seq_empty T). split; [reflexivity|]. apply seq_empty_wf'.
+    - destruct (seq_abs s); cbn [sq_step seq_step]. destruct (seq_convert_ok xs) as (s' & -> & W' & C). cbn [rbind]. eauto.
+    - pose proof (seq_unpack_ok i j s W) as P. destruct (seq_abs s) as [z l] eqn:EA. cbn [snd] in P. cbn [sq_step seq_step].
+      destruct ((1 <=? i) && (j <=? length l) && (i <=? j)).
+      + destruct P as (s' & -> & W' & C). cbn [rbind fst snd]. eauto.
       + rewrite P. reflexivity.
   Qed.
 
